@@ -170,6 +170,8 @@ static void survivors_all(const uint8_t *a, int m, int k, const char *gen, uint6
 }
 
 /* end to end: encode, erase every pattern of up to (m-k) blocks, invert, re-encode, compare */
+static const uint32_t *E2E_MASKS; /* optional explicit erasure patterns (for m beyond what all-subsets enumeration can take) */
+static int E2E_NMASKS;
 static void end_to_end(int m, int k, int cauchy, int len, int level, uint64_t *unit)
 {
 	uint8_t a[32 * 32], b[32 * 32], inv[32 * 32], dec[32 * 32], tbl[32 * 32 * 32];
@@ -191,7 +193,8 @@ static void end_to_end(int m, int k, int cauchy, int len, int level, uint64_t *u
 	encode(len, k, m - k, tbl, blk, blk + k);
 	for (int l = 0; l < m - k; l++)
 		rec[l] = g_alloc(len, G_END);
-	for (uint32_t lost = 1; lost < (1u << m); lost++) {
+	for (uint64_t li = 1; li < (E2E_MASKS ? (uint64_t)E2E_NMASKS + 1 : 1ull << m); li++) {
+		uint32_t lost = E2E_MASKS ? E2E_MASKS[li - 1] : (uint32_t)li;
 		int nl = __builtin_popcount(lost);
 		if (nl > m - k)
 			continue;
@@ -428,6 +431,37 @@ int main(int argc, char **argv)
 				inv_case(wm, n, "wide-dense-xorshift", n);
 			}
 		}
+	}
+	/* ---- many erasures: 7, 8, 12, 13 and 19 lost fragments (the high-level encoder finishes row counts beyond one kernel in pieces), lost
+	 * data first / lost parity first / alternating, block lengths 64, 100, 300, at every simulated CPU level and the base code ---- */
+	{
+		static const int mk[3][2] = { { 14, 7 }, { 26, 13 }, { 32, 13 } };
+		static const int lens2[] = { 64, 100, 300 };
+		for (int ci = 0; ci < 3; ci++)
+			for (int lvl = -1; lvl < CPU_NLEVELS; lvl++)
+				for (int li = 0; li < 3; li++) {
+					int m = mk[ci][0], k = mk[ci][1], r = m - k, nm = 0;
+					uint32_t masks[24];
+					static const int nls[] = { 7, 8, 12, 13, 19 };
+					for (int ni = 0; ni < 5; ni++) {
+						int nl = nls[ni];
+						if (nl > r)
+							continue;
+						uint32_t lo = 0, hi = 0, alt = 0;
+						for (int i = 0; i < nl; i++) {
+							lo |= 1u << i;                 /* the first nl fragments (data first) */
+							hi |= 1u << (m - 1 - i);       /* the last nl fragments (parity first) */
+						}
+						for (int i = 0, c = 0; i < m && c < nl; i += (i + 2 < m && m - i > 2 * (nl - c) ? 2 : 1), c++)
+							alt |= 1u << i;
+						masks[nm++] = lo; masks[nm++] = hi;
+						if (__builtin_popcount(alt) == nl)
+							masks[nm++] = alt;
+					}
+					E2E_MASKS = masks; E2E_NMASKS = nm;
+					end_to_end(m, k, 1, lens2[li], lvl, &unit);
+					E2E_MASKS = NULL;
+				}
 	}
 	/* ---- generators: identity top block + documented formulas, for every (m,k), m <= 255 (cauchy also m = 256) ---- */
 	for (int mm = 1; mm <= 256; mm++) {
